@@ -32,7 +32,11 @@ import runs  # noqa: E402
 
 FAULTCMD = os.path.join(common.VERIF, 'build', 'faultcmd')
 KINDS = {'hang': 'h1', 'spin': 's1', 'alloc': 'a1', 'signal': 'k1',
-         'grand': 'g1', 'slow': 'w1'}
+         'grand': 'g1', 'slow': 'w1', 'mmap': 'm1'}
+# not part of the enumerated placements: a command that maps its memory in its
+# very first instants (see known finding C10-memout-race)
+EXTRA_KINDS = {'mmapfast': 'f1'}
+KINDS_ALL = dict(KINDS, **EXTRA_KINDS)
 
 
 def build_cmd():
@@ -47,7 +51,7 @@ def build_cmd():
 
 def make_input(kinds, r):
     lines = ['(set-logic QF_LIA)', '(declare-const x Int)']
-    body = [f'(assert {KINDS[k]})' for k in kinds]
+    body = [f'(assert {KINDS_ALL[k]})' for k in kinds]
     body += ['(assert (> x 0))', '(assert (< x 9))', '(assert true)']
     r.shuffle(body)
     return '\n'.join(lines + body + ['(check-sat)']) + '\n'
@@ -64,12 +68,13 @@ def run_one(k, cfg):
     wd = common.subscratch(f'c10-{k}')
     os.makedirs(wd, exist_ok=True)
     flog = os.path.join(wd, 'fault.log')
-    spec = 'keep=check-sat,x;' + ';'.join(f'{kd}={KINDS[kd]}' for kd in kinds)
+    spec = 'keep=check-sat,x;' + ';'.join(f'{kd}={KINDS_ALL[kd]}'
+                                          for kd in kinds)
     opts = ['--strategy', strategy, '-j', str(jobs)]
     limit = 0.3 if explicit else None
     if explicit:
         opts += ['--timeout', '0.3']
-    if 'alloc' in kinds:
+    if 'alloc' in kinds or 'mmap' in kinds or 'mmapfast' in kinds:
         opts += ['--memout', '64']
     if cc:
         spec += ';sleepif=slow1:1300'
@@ -138,8 +143,9 @@ def main():
     rep = common.Report('C10', 'fault_enumeration', a.tier)
     rep.cov['rule'] = (
         'model: all behaviours of Exec.tla; runs: placements of <= 3 of the '
-        'six fault kinds (hang, spin, alloc, signal, grandchild, overrun by '
-        'less than a second) in the '
+        'seven fault kinds (hang, spin, alloc, anonymous mapping, signal, '
+        'grandchild, overrun by less than a second; the command ignores '
+        'SIGTERM) in the '
         'input x strategy x -j 1/2 x explicit (0.3 s) or derived time limit; '
         'one evaluation per executed command; non-trivial = executions that '
         'hit a fault; distinct by (configuration, execution)')
@@ -174,7 +180,10 @@ def main():
         derived = [c for c in cfgs if not c[3] and len(c[0]) == 1]
         cfgs = r.sample(explicit, 20) + r.sample(derived, 3)
         cfgs += [(('slow', ), 'ddmin', 1, True),
-                 (('slow', 'hang'), 'hierarchical', 2, True)]
+                 (('slow', 'hang'), 'hierarchical', 2, True),
+                 (('mmap', ), 'hybrid', 2, True),
+                 (('mmap', 'alloc'), 'ddmin', 1, True),
+                 (('mmapfast', ), 'ddmin', 1, True)]
     if not a.replay:
         # a cross-check command with its own derived limit
         cfgs += [(('hang', ), 'hybrid', 2, False, True),
@@ -191,7 +200,7 @@ def main():
         rp = {'cfg': cfg}
         ntests = len([x for x in rr['faultlog'] if x.strip()])
         nfault = len([x for x in rr['faultlog']
-                      if x.strip() and x.split()[-1] in KINDS])
+                      if x.strip() and x.split()[-1] in KINDS_ALL])
         rep.count(ntests)
         for i in range(nfault):
             rep.nontrivial(f'{k}:{i}')
@@ -225,8 +234,8 @@ def main():
                 f'{limit}s (bound {bound:.1f}s): {cfg}', rp)
         if rr['out_text'] is not None:
             toks = refreader.lex(rr['out_text'])
-            missing = [KINDS[kd] for kd in cfg['kinds']
-                       if KINDS[kd] not in toks]
+            missing = [KINDS_ALL[kd] for kd in cfg['kinds']
+                       if KINDS_ALL[kd] not in toks]
             if missing:
                 rep.violation(
                     f'faulty-candidate-adopted:{"+".join(missing)}:{sig}',
